@@ -375,6 +375,14 @@ def main(argv):
             for extra_seed in (seed + 1000, seed + 2000):
                 cases += list(mod.generate(random.Random(extra_seed), a.tier))
 
+        if not getattr(mod, "NO_FOLLOWUP", False):
+            # generic second phase (harness/followup.py): further calls - faults, edits through live handles - and the
+            # program's own observations again; compared through the correspondence only.  Last, so that the in-Coq
+            # cross-check sample and the per-property counts are those of the property's own programs.
+            from . import followup
+            cases += followup.make(random.Random(seed * 7919 + 13), [c for c in cases if "prog" in c],
+                                   {"quick": 24}.get(a.tier, 300))
+
     # ---- 3. extra per-property work (translator validation, numeric oracles, alias graph) ------
     extra = getattr(mod, "extra_checks", None)
     extra_cov = extra(ctx) if extra and not a.replay else {}
@@ -390,7 +398,7 @@ def main(argv):
     op_counts, err_kinds, prog_sizes = {}, {}, []
     n_dust = 0
     for c, (im, mo, diffs) in zip(cases, results):
-        k = mod.nontrivial_key(c, im) if hasattr(mod, "nontrivial_key") else None
+        k = mod.nontrivial_key(c, im) if hasattr(mod, "nontrivial_key") and not c.get("followup") else None
         if k is not None:
             keys.add(k)
         dist[c.get("kind", "?")] = dist.get(c.get("kind", "?"), 0) + 1
@@ -402,7 +410,7 @@ def main(argv):
                 err_kinds["(observation returned)"] = err_kinds.get("(observation returned)", 0) + 1
         prog_sizes.append(len(c["prog"]))
         ofail = []
-        if oracle:
+        if oracle and not c.get("followup"):
             try:
                 ofail = oracle(c, im) or []
             except Exception as e:  # noqa: BLE001
